@@ -708,11 +708,11 @@ Section MachineProofs.
   Variables D P : Type.
   Variable early : input -> bool.
   Variable pre : D -> D.
-  Variable V : validator.
+  Variable V : P -> validator.
   Variable body : D -> Z * Z -> P -> D.
 
   Hypothesis pre_idem : forall d, pre (pre d) = pre d.
-  Hypothesis V_rej : forall st x s, V st x = Reject s -> s = st.
+  Hypothesis V_rej : forall p st x s, V p st x = Reject s -> s = st.
 
   Notation upd := (m_update early pre V body).
   Notation trace := (m_trace early pre V body).
@@ -736,7 +736,7 @@ Section MachineProofs.
   Proof.
     intros [H1 H2]. unfold m_update. destruct (early (fst c)); simpl.
     - split; [reflexivity|]. split; [split; assumption|discriminate].
-    - rewrite H1, H2. destruct (V (m_v b) (fst c)) as [shp s|s]; simpl.
+    - rewrite H1, H2. destruct (V (snd c) (m_v b) (fst c)) as [shp s|s]; simpl.
       + split; [reflexivity|]. split; [apply sim_refl|reflexivity].
       + split; [reflexivity|]. split; [apply sim_refl|discriminate].
   Qed.
@@ -745,16 +745,16 @@ Section MachineProofs.
   Lemma rejected_sim m c : snd (upd m c) = false -> sim (fst (upd m c)) m.
   Proof.
     unfold m_update. destruct (early (fst c)); simpl; [intros _; apply sim_refl|].
-    destruct (V (m_v m) (fst c)) as [shp s|s] eqn:E; simpl; [discriminate|].
-    intros _. split; simpl; [exact (V_rej _ _ _ E)|apply pre_idem].
+    destruct (V (snd c) (m_v m) (fst c)) as [shp s|s] eqn:E; simpl; [discriminate|].
+    intros _. split; simpl; [exact (V_rej _ _ _ _ E)|apply pre_idem].
   Qed.
 
   (** ... and nothing at all when no reset is pending: it is not counted *)
   Lemma rejected_no_effect m c : pre (m_d m) = m_d m -> snd (upd m c) = false -> fst (upd m c) = m.
   Proof.
     intros Hp. unfold m_update. destruct (early (fst c)); simpl; [reflexivity|].
-    destruct (V (m_v m) (fst c)) as [shp s|s] eqn:E; simpl; [discriminate|].
-    intros _. rewrite (V_rej _ _ _ E), Hp. destruct m; reflexivity.
+    destruct (V (snd c) (m_v m) (fst c)) as [shp s|s] eqn:E; simpl; [discriminate|].
+    intros _. rewrite (V_rej _ _ _ _ E), Hp. destruct m; reflexivity.
   Qed.
 
   Lemma trace_sim h : forall a b, sim a b ->
@@ -816,7 +816,7 @@ Section MachineProofs.
   (** containers: two histories whose calls carry the same values in containers that the
       validator cannot tell apart *)
   Definition indistinguishable (x y : input) : Prop :=
-    early x = early y /\ forall st, V st x = V st y.
+    early x = early y /\ forall p st, V p st x = V p st y.
 
   Theorem container_irrelevant_machine h1 : forall h2 m,
     Forall2 (fun c1 c2 => snd c1 = snd c2 /\ indistinguishable (fst c1) (fst c2)) h1 h2 ->
@@ -826,7 +826,7 @@ Section MachineProofs.
     - repeat split; reflexivity.
     - destruct H1 as (Hp & He & Hv).
       assert (U : upd m c1 = upd m y).
-      { unfold m_update. rewrite He, Hv, Hp. reflexivity. }
+      { unfold m_update. rewrite He, Hp, Hv. reflexivity. }
       unfold m_final in *. simpl. rewrite U.
       destruct (upd m y) as [m' ok]. simpl.
       destruct (IH l' m' H3) as (T1 & T2 & T3).
@@ -945,9 +945,9 @@ Section DfSim.
     Variables D P : Type.
     Variable pre : D -> D.
     Variable body : D -> Z * Z -> P -> D.
-    Notation upd := (m_update (fun _ => false) pre V body).
-    Notation trace := (m_trace (fun _ => false) pre V body).
-    Notation verd := (m_verdicts (fun _ => false) pre V body).
+    Notation upd := (m_update (fun _ => false) pre (fun _ : P => V) body).
+    Notation trace := (m_trace (fun _ => false) pre (fun _ : P => V) body).
+    Notation verd := (m_verdicts (fun _ => false) pre (fun _ : P => V) body).
 
     Theorem df_container_irrelevant h1 : forall h2 (m1 m2 : mstate D),
       vsim (m_v m1) (m_v m2) -> m_d m1 = m_d m2 ->
@@ -1103,69 +1103,138 @@ Definition toy_body (d : toy) (shp : Z * Z) (alarm : bool) : toy :=
 Lemma toy_pre_idem d : toy_pre (toy_pre d) = toy_pre d.
 Proof. unfold toy_pre. destruct d as [t s []]; reflexivity. Qed.
 
-(** ------------------------------------------------------------------ the four usages at once *)
+(** ------------------------------------------------------------------ set_reference with detect_batch = 1 *)
+Lemma min3_spec st x : wf st ->
+  match validate_reference_min3 st x with
+  | Accept shp s =>
+      3 <= fst (coerce_batch x) /\ names_ok st x /\
+      (width_ok st (snd (coerce_batch x)) \/ (is_df x = true /\ input_cols st = None)) /\
+      shp = coerce_batch x /\ input_col_dim s = Some (snd (coerce_batch x)) /\
+      input_cols s = match x with InDF ns _ => Some ns | _ => input_cols st end
+  | Reject s =>
+      s = st /\ ~ (3 <= fst (coerce_batch x) /\ names_ok st x /\
+                   (width_ok st (snd (coerce_batch x)) \/ (is_df x = true /\ input_cols st = None)))
+  end.
+Proof.
+  intros W. unfold validate_reference_min3. pose proof (batch_spec st x W) as H.
+  destruct (validate_X_batch st x) as [shp s|s].
+  - destruct H as (H1 & H2 & H3 & -> & H5 & H6).
+    destruct (fst (coerce_batch x) <? 3) eqn:E.
+    + apply Z.ltb_lt in E. split; [reflexivity|]. intros (A & _). lia.
+    + apply Z.ltb_ge in E. repeat split; auto.
+  - destruct H as (-> & H). split; [reflexivity|]. intros (A & B & C). apply H. repeat split; auto. lia.
+Qed.
+
+Theorem min3_accepts_exact st x : wf st ->
+  (is_accept (validate_reference_min3 st x) = true <->
+   3 <= fst (coerce_batch x) /\ names_ok st x /\
+   (width_ok st (snd (coerce_batch x)) \/ (is_df x = true /\ input_cols st = None))).
+Proof.
+  intros W. pose proof (min3_spec st x W) as H.
+  destruct (validate_reference_min3 st x) as [shp s|s]; simpl.
+  - destruct H as (H1 & H2 & H3 & _). split; auto.
+  - destruct H as (_ & H). split; [discriminate|]. intros H'. contradiction.
+Qed.
+
+Lemma min3_reject_no_change st x s : validate_reference_min3 st x = Reject s -> s = st.
+Proof.
+  unfold validate_reference_min3. destruct (validate_X_batch st x) as [shp s'|s'] eqn:E.
+  - destruct (fst shp <? 3); intros H; inversion H; reflexivity.
+  - intros H. inversion H; subst. exact (batch_reject_no_change st x s E).
+Qed.
+
+Lemma wf_preserved_min3 st x : wf st -> wf (state_of (validate_reference_min3 st x)).
+Proof.
+  intros W. unfold validate_reference_min3. pose proof (wf_preserved_batch st x W) as H.
+  destruct (validate_X_batch st x) as [shp s|s]; simpl in *; [|exact H].
+  destruct (fst shp <? 3); simpl; assumption.
+Qed.
+
+Lemma nondf_equiv_min3 x y st : is_df x = false -> is_df y = false ->
+  coerce_batch x = coerce_batch y -> validate_reference_min3 st x = validate_reference_min3 st y.
+Proof.
+  intros Hx Hy E. unfold validate_reference_min3. rewrite (nondf_equiv_batch x y st Hx Hy E). reflexivity.
+Qed.
+
+(** ------------------------------------------------------------------ all usages at once *)
 Lemma user_reject_no_change k st x s : user_validator k st x = Reject s -> s = st.
 Proof.
-  destruct k; simpl.
+  destruct k; simpl; try apply batch_reject_no_change.
   - apply stream_reject_no_change.
   - apply uni_reject_no_change.
-  - apply batch_reject_no_change.
-  - apply batch_reject_no_change.
+Qed.
+
+Lemma call_reject_no_change k r st x s : call_validator k r st x = Reject s -> s = st.
+Proof.
+  unfold call_validator. destruct (k_min3 k && r).
+  - apply min3_reject_no_change.
+  - apply user_reject_no_change.
 Qed.
 
 Lemma user_wf_preserved k st x : wf st -> wf (state_of (user_validator k st x)).
 Proof.
-  destruct k; simpl.
+  destruct k; simpl; try apply wf_preserved_batch.
   - apply wf_preserved_stream.
   - apply wf_preserved_uni.
-  - apply wf_preserved_batch.
-  - apply wf_preserved_batch.
 Qed.
 
-Lemma nondf_indistinguishable k x y : is_df x = false -> is_df y = false ->
+Lemma call_wf_preserved k r st x : wf st -> wf (state_of (call_validator k r st x)).
+Proof.
+  unfold call_validator. destruct (k_min3 k && r).
+  - apply wf_preserved_min3.
+  - apply user_wf_preserved.
+Qed.
+
+Lemma nondf_indistinguishable k (P : Type) (sel : P -> bool) x y : is_df x = false -> is_df y = false ->
   user_coerce k x = user_coerce k y ->
-  indistinguishable (user_early k) (user_validator k) x y.
+  indistinguishable P (user_early k) (fun p => call_validator k (sel p)) x y.
 Proof.
   intros Hx Hy E. split.
-  - destruct k; simpl; try reflexivity. unfold user_coerce in E. simpl in E.
-    destruct (cdbd_guard x) eqn:Gx; destruct (cdbd_guard y) eqn:Gy; try reflexivity.
+  - destruct k; simpl; try reflexivity; unfold user_coerce in E; simpl in E;
+      destruct (cdbd_guard x) eqn:Gx; destruct (cdbd_guard y) eqn:Gy; try reflexivity.
     + apply cdbd_guard_width in Gy. rewrite <- E in Gy. apply cdbd_guard_width in Gy. congruence.
     + apply cdbd_guard_width in Gx. rewrite E in Gx. apply cdbd_guard_width in Gx. congruence.
-  - intros st. destruct k; unfold user_coerce in E; simpl in *.
+    + apply cdbd_guard_width in Gy. rewrite <- E in Gy. apply cdbd_guard_width in Gy. congruence.
+    + apply cdbd_guard_width in Gx. rewrite E in Gx. apply cdbd_guard_width in Gx. congruence.
+  - intros p st. unfold call_validator.
+    destruct k; unfold user_coerce in E; simpl in *;
+      try (apply nondf_equiv_batch; assumption).
     + apply nondf_equiv_stream; assumption.
     + apply nondf_equiv_uni; assumption.
-    + apply nondf_equiv_batch; assumption.
-    + apply nondf_equiv_batch; assumption.
+    + destruct (sel p); [apply nondf_equiv_min3|apply nondf_equiv_batch]; assumption.
+    + destruct (sel p); [apply nondf_equiv_min3|apply nondf_equiv_batch]; assumption.
 Qed.
 
 Lemma Forall2_weaken {A B} (R S : A -> B -> Prop) : (forall a b, R a b -> S a b) ->
   forall l1 l2, Forall2 R l1 l2 -> Forall2 S l1 l2.
 Proof. intros H l1 l2 F. induction F; constructor; auto. Qed.
 
-Theorem container_irrelevant_history k (D P : Type) (pre : D -> D) (body : D -> Z * Z -> P -> D) h1 h2 m :
+Theorem container_irrelevant_history k (D P : Type) (sel : P -> bool) (pre : D -> D)
+        (body : D -> Z * Z -> P -> D) h1 h2 m :
+  let V := fun p => call_validator k (sel p) in
   Forall2 (fun c1 c2 => snd c1 = snd c2 /\
                         (fst c1 = fst c2 \/
                          (is_df (fst c1) = false /\ is_df (fst c2) = false /\
                           user_coerce k (fst c1) = user_coerce k (fst c2)))) h1 h2 ->
-  m_trace (user_early k) pre (user_validator k) body m h1 = m_trace (user_early k) pre (user_validator k) body m h2 /\
-  m_verdicts (user_early k) pre (user_validator k) body m h1 = m_verdicts (user_early k) pre (user_validator k) body m h2 /\
-  m_final (user_early k) pre (user_validator k) body m h1 = m_final (user_early k) pre (user_validator k) body m h2.
+  m_trace (user_early k) pre V body m h1 = m_trace (user_early k) pre V body m h2 /\
+  m_verdicts (user_early k) pre V body m h1 = m_verdicts (user_early k) pre V body m h2 /\
+  m_final (user_early k) pre V body m h1 = m_final (user_early k) pre V body m h2.
 Proof.
-  intros F.
-  apply (container_irrelevant_machine D P (user_early k) pre (user_validator k) body h1 h2 m).
+  intros V F.
+  apply (container_irrelevant_machine D P (user_early k) pre V body h1 h2 m).
   eapply Forall2_weaken; [|exact F]. intros a b (Hp & [E|(A & B & C)]); split; try exact Hp.
   - rewrite E. split; reflexivity.
-  - exact (nondf_indistinguishable k (fst a) (fst b) A B C).
+  - exact (nondf_indistinguishable k P sel (fst a) (fst b) A B C).
 Qed.
 
 (** the checker the harness evaluates is the verified validator: a call whose only validation is the
-    user's X gets the verdict and the attributes of [user_early] / [user_validator] *)
-Lemma call_model_single k st x seen acc cols dim known :
-  let c := mkCall (Some x) None None [(true, x, seen)] acc cols dim known in
-  fst (fst (call_model k st c)) = negb (user_early k x) && is_accept (user_validator k st x) /\
-  snd (fst (call_model k st c)) = if user_early k x then st else state_of (user_validator k st x).
+    user's X gets the verdict and the attributes of [user_early] / [call_validator] *)
+Lemma call_model_single k r st x seen acc cols dim known :
+  let c := mkCall r (Some x) None None [(true, x, seen)] acc cols dim known in
+  fst (fst (call_model k st c)) = negb (user_early k x) && is_accept (call_validator k r st x) /\
+  snd (fst (call_model k st c)) = if user_early k x then st else state_of (call_validator k r st x).
 Proof.
-  unfold call_model. simpl.
+  unfold call_model, call_validator. simpl.
   destruct k; simpl.
   - unfold k_validator; simpl. destruct (validate_X_stream st x) as [shp s|s]; simpl; auto.
   - unfold k_validator, validate_univariate; simpl.
@@ -1174,4 +1243,21 @@ Proof.
   - unfold k_validator; simpl. destruct (validate_X_batch st x) as [shp s|s]; simpl; auto.
   - destruct (cdbd_guard x); simpl; auto.
     unfold k_validator; simpl. destruct (validate_X_batch st x) as [shp s|s]; simpl; auto.
+  - unfold k_validator, validate_reference_min3; simpl. destruct r; simpl;
+      destruct (validate_X_batch st x) as [shp s|s]; simpl; auto.
+    destruct (fst shp <? 3); simpl; auto.
+  - destruct (cdbd_guard x); simpl; auto.
+    unfold k_validator, validate_reference_min3; simpl. destruct r; simpl;
+      destruct (validate_X_batch st x) as [shp s|s]; simpl; auto.
+    destruct (fst shp <? 3); simpl; auto.
+Qed.
+
+(** attributes after a history of calls, each saying whether it is set_reference *)
+Definition final_calls (k : dkind) (st : vstate) (h : list (bool * input)) : vstate :=
+  fold_left (fun s c => state_of (call_validator k (fst c) s (snd c))) h st.
+
+Lemma wf_final_calls k h : forall st, wf st -> wf (final_calls k st h).
+Proof.
+  induction h as [|c t IH]; intros st W; simpl; [exact W|].
+  apply IH. apply call_wf_preserved. exact W.
 Qed.
